@@ -5,6 +5,7 @@ from django.template import Context, Template
 
 from django_components import Component, ComponentRegistry, NotRegistered, types
 from django_components.component_registry import all_registries
+from django_components.util.context import snapshot_context
 
 
 class DynamicComponent(Component):
@@ -112,6 +113,11 @@ class DynamicComponent(Component):
 
         comp_class = self._resolve_component(comp_name_or_class, registry)
 
+        # The inner component is rendered only later (see `on_render_before()`). By then, the Context we received
+        # may have already left the `{% for %}`, `{% with %}` or `{% fill %}` blocks (or parent components) inside
+        # which the dynamic component was used. So we remember the Context as it is now.
+        self._input_context = snapshot_context(self.input.context)
+
         return {
             "comp_class": comp_class,
             "args": args,
@@ -133,7 +139,7 @@ class DynamicComponent(Component):
             registry=self.registry,
         )
         output = comp.render(
-            context=self.input.context,
+            context=self._input_context,
             args=args,
             kwargs=kwargs,
             slots=self.input.slots,
